@@ -3,6 +3,7 @@ import tables as T
 from cfg import cfg_of
 from flow import Taint, Tracker, callee_matches, field_reads, op_local, prep, backward, backward_calls
 from rules import CallGuard, CallSink, CmpGuard, RetSink, AggSink, BlockSink, FieldOptGuard, compare_sites
+from rules import PL
 from props.C04 import call_results, agg_field_operands
 
 META = {
@@ -100,8 +101,7 @@ def run(R):
             st = [s for b in ost.blocks for s in b["stmts"] if len(s["d"]) > 1 and s["d"][-1] == ".status"]
             ok = ok and all(_written_variant(ost, s) == "Running" for s in st)
             pw = [s for b in ost.blocks for s in b["stmts"] if len(s["d"]) > 1 and s["d"][-1] == ".pid"]
-            from props.C15 import _upvar_reads
-            pids = Taint(ost).closure({l for l in Taint(ost).var_locals("pid") if l != 1} | _upvar_reads(ost, "pid"))
+            pids = Taint(ost).closure(PL(ost, 1))  # (self, pid, full_refresh)
             ok = ok and bool(pw) and all(op_local(s["rv"].get("a", ["?"])) in pids for s in pw)
         if not ok:
             R.viol("C19.on_start", "running-last", "NodeService::on_start must set status = Running (and the given pid) as its last effect, after every fallible RPC", ost, ost.lines[0])
@@ -183,7 +183,20 @@ def run(R):
             R.viol("C19.add.ports", "ports-unchecked", "requested ports are not validated and checked against the registry before services are installed", add, add.lines[0])
         R.inst("C19.add.ports", "K4r reject-edge", "a requested port another service records makes add_node fail before any install", len(chk), ok)
         # numbering
-        nn = Taint(add).var_locals("node_number") - {1}
+        # the service counter: the plain local that NodeServiceData.number is copied from
+        nops = agg_field_operands(add, NSD, "number")
+        nn = set()
+        for _, s_, o_ in nops:
+            l_ = op_local(o_)
+            seen_ = set()
+            while l_ is not None and l_ not in seen_:
+                seen_.add(l_)
+                nxt_ = [st["rv"]["a"][1][0] for blk in add.blocks for st in blk["stmts"] if st["d"] == [l_] and st["rv"]["k"] == "use" and st["rv"]["a"][0] in ("cp", "mv") and len(st["rv"]["a"][1]) == 1]
+                if len(nxt_) != 1:
+                    break
+                l_ = nxt_[0]
+            if l_ is not None:
+                nn.add(l_)
         ok = False
         how = None
         if nn:
